@@ -55,7 +55,7 @@ def fmtParam (p : Param) : List Piece :=
   fmtTy p.mods p.name p.targs (startsTok d false) ++ (d ++ (fmtSem p.sem ++
     (match p.dflt with
      | none => []
-     | some e => .sp :: pp .Equals :: .sp :: fmtExprX e)))
+     | some e => .sp :: pp .Equals :: .sp :: fmtSubX e paramDefaultPrec paramDefaultSide)))
 
 def fmtParams : List Param → List Piece
   | [] => []
